@@ -241,7 +241,8 @@ def extract_hex(s, n):
 
 # cost of a hash string for the policy model: (scheme family) -> integer, or None if the format has no cost
 _COST_FIELD = {"bcrypt": 1, "bcrypt_sha256": 2, "sha256_crypt": 0, "sha512_crypt": 0, "sha1_crypt": 0, "pbkdf2_sha1": 0,
-               "pbkdf2_sha256": 0, "pbkdf2_sha512": 0, "phpass": 0, "scrypt": 0, "django_pbkdf2_sha256": 0, "bsdi_crypt": 0, "fshp": 1}
+               "pbkdf2_sha256": 0, "pbkdf2_sha512": 0, "phpass": 0, "scrypt": 0, "django_pbkdf2_sha256": 0, "bsdi_crypt": 0, "fshp": 1,
+               "django_pbkdf2_sha1": 0, "grub_pbkdf2_sha512": 0, "sun_md5_crypt": 0}
 
 
 def cost_of(s, scheme):
